@@ -142,15 +142,55 @@ Struct(F)  == [t |-> "struct", f |-> F, tail |-> FALSE]
 StructTail(F) == [t |-> "struct", f |-> F, tail |-> TRUE]   \* last field: ListOf(X) tagged `tail`
 Ptr(T)     == [t |-> "ptr", of |-> T, nilok |-> FALSE, any |-> FALSE]
 NilPtr(T)  == [t |-> "ptr", of |-> T, nilok |-> TRUE, any |-> FALSE]     \* field tagged `nil`
+Iface      == [t |-> "iface"]
+Raw        == [t |-> "raw"]
+(* a reference to a catalogue type by name: how a type refers to itself *)
+Ref(name) == [t |-> "ref", name |-> name]
+
+(* ------------------------------------------------ the driver's type catalogue
+   (harness/cmd/c08/types.go declares the same Go types under the same names) *)
+Inner == Struct(<<U(64), Bytes>>)
+TypeOf ==
+  [ u8 |-> U(8), u16 |-> U(16), u32 |-> U(32), u64 |-> U(64),
+    big |-> Ptr(Big), bigv |-> Big, bool |-> Bool, bytes |-> Bytes, str |-> Bytes,
+    a0 |-> Arr(0), a1 |-> Arr(1), a3 |-> Arr(3), a20 |-> Arr(20), a32 |-> Arr(32),
+    iface |-> Iface, raw |-> Raw,
+    lu64 |-> ListOf(U(64)), lbytes |-> ListOf(Bytes), liface |-> ListOf(Iface), llu16 |-> ListOf(ListOf(U(16))),
+    au2 |-> LArr(2, U(16)), lraw |-> ListOf(Raw), pu64 |-> Ptr(U(64)),
+    S1 |-> Inner,
+    SnilA |-> Struct(<<U(64), NilPtr(Arr(20))>>),
+    SnilU |-> Struct(<<NilPtr(U(64)), U(8)>>),
+    SnilS |-> Struct(<<NilPtr(Inner)>>),
+    Stail |-> StructTail(<<U(64), ListOf(U(64))>>),
+    Sptr |-> Struct(<<Ptr(U(64)), Ptr(Big), Ptr(Bytes)>>),
+    Snest |-> Struct(<<Inner, ListOf(Inner), LArr(2, U(16))>>),
+    Sraw |-> Struct(<<Raw, U(64)>>),
+    Sbool |-> Struct(<<Bool, Bool, Bytes>>),
+    (* self-referential types (through a nil pointer, a slice, a second struct, an array) *)
+    RList |-> Struct(<<U(64), NilPtr(Ref("RList"))>>),
+    RTree |-> Struct(<<Bytes, ListOf(Ref("RTree"))>>),
+    RA |-> Struct(<<U(8), NilPtr(Ref("RB"))>>),
+    RB |-> Struct(<<Bytes, ListOf(Ref("RA"))>>),
+    RArr |-> Struct(<<U(8), LArr(1, ListOf(Ref("RArr")))>>),
+    (* a one-byte array followed by another field; interface / by-value big integer / pointers to
+       bool and string / plain uint as struct fields *)
+    Sa1 |-> Struct(<<Arr(1), U(8)>>),
+    Sif |-> Struct(<<Iface, U(8), Big, Ptr(Bool), Ptr(Bytes), U(64)>>),
+    (* types with their own EncodeRLP/DecodeRLP (pointer and value receivers): they code themselves
+       as a one-field list *)
+    encp |-> Struct(<<U(64)>>), pencp |-> Ptr(Struct(<<U(64)>>)), encv |-> Struct(<<U(64)>>),
+    Senc |-> Struct(<<Struct(<<U(64)>>), Ptr(Struct(<<U(64)>>)), Struct(<<U(64)>>)>>),
+    EthTx |-> Struct(<<U(64), Ptr(Big), U(64), NilPtr(Arr(20)), Ptr(Big), Bytes, Ptr(Big), Ptr(Big), Ptr(Big)>>) ]
+TypeNames == DOMAIN TypeOf
+Deref(T) == IF T.t = "ref" THEN TypeOf[T.name] ELSE T
+
 (* diagnostic variant: a `nil` field that takes either kind of empty value (what the decoder did
    until fix b7e1712); only used by the monitor to name that class of failure, never as the oracle *)
 RECURSIVE Lenient(_)
 Lenient(T) == CASE T.t = "ptr" -> [T EXCEPT !.of = Lenient(T.of), !.any = T.nilok]
                 [] T.t \in {"list", "larr"} -> [T EXCEPT !.of = Lenient(T.of)]
                 [] T.t = "struct" -> [T EXCEPT !.f = [i \in 1..Len(T.f) |-> Lenient(T.f[i])]]
-                [] OTHER -> T
-Iface      == [t |-> "iface"]
-Raw        == [t |-> "raw"]
+                [] OTHER -> T        \* (a reference keeps its strict reading)
 
 RECURSIVE HasRaw(_)
 HasRaw(T) == CASE T.t = "raw" -> TRUE
@@ -160,7 +200,7 @@ HasRaw(T) == CASE T.t = "raw" -> TRUE
 
 (* does a value of type T encode as an RLP list? *)
 RECURSIVE ListKind(_)
-ListKind(T) == CASE T.t \in {"list", "larr", "struct"} -> TRUE
+ListKind(T) == CASE T.t \in {"list", "larr", "struct", "ref"} -> TRUE      \* catalogue types referred to are structs
                  [] T.t = "ptr" -> ListKind(T.of)
                  [] OTHER -> FALSE
 
@@ -173,7 +213,8 @@ IfaceVal(x) == IF x.k = "s" THEN [k |-> "b", b |-> x.b]
                ELSE [k |-> "l", e |-> [i \in 1..Len(x.e) |-> IfaceVal(x.e[i])]]
 
 RECURSIVE View(_, _)
-View(T, x) ==
+View(T0, x) ==
+  LET T == Deref(T0) IN
   CASE T.t = "uint" ->
          IF x.k = "s" /\ Len(x.b) <= T.w \div 8 /\ (x.b = <<>> \/ x.b[1] # 0)
            THEN [k |-> "u", b |-> x.b] ELSE Err
@@ -219,7 +260,8 @@ TDec(T, b) == LET x == Dec(b) IN IF IsErr(x) THEN Err ELSE View(T, x)
 EmptyEnc(T) == IF ListKind(T) THEN <<192>> ELSE <<128>>
 
 RECURSIVE TEnc(_, _)
-TEnc(T, v) ==
+TEnc(T0, v) ==
+  LET T == Deref(T0) IN
   CASE T.t \in {"uint", "big"} -> EncStr(StripZ(v.b))
     [] T.t = "bool" -> IF v.v THEN <<1>> ELSE <<128>>
     [] T.t \in {"bytes", "arr"} -> EncStr(v.b)
@@ -241,7 +283,8 @@ TEnc(T, v) ==
    pointer is the zero value unless the field is tagged `nil`, where every
    empty value is nil; a nil interface is the empty list) *)
 RECURSIVE NormV(_, _)
-NormV(T, v) ==
+NormV(T0, v) ==
+  LET T == Deref(T0) IN
   CASE T.t \in {"uint", "big"} -> [k |-> "u", b |-> StripZ(v.b)]
     [] T.t \in {"bool", "bytes", "arr", "raw"} -> v
     [] T.t \in {"list", "larr"} -> [k |-> "l", e |-> [i \in 1..Len(v.e) |-> NormV(T.of, v.e[i])]]
@@ -260,25 +303,4 @@ NormV(T, v) ==
          ELSE IF v.k = "b" THEN v
          ELSE [k |-> "l", e |-> [i \in 1..Len(v.e) |-> NormV(T, v.e[i])]]
 
-(* ------------------------------------------------ the driver's type catalogue
-   (harness/cmd/c08/types.go declares the same Go types under the same names) *)
-Inner == Struct(<<U(64), Bytes>>)
-TypeOf ==
-  [ u8 |-> U(8), u16 |-> U(16), u32 |-> U(32), u64 |-> U(64),
-    big |-> Ptr(Big), bigv |-> Big, bool |-> Bool, bytes |-> Bytes, str |-> Bytes,
-    a0 |-> Arr(0), a1 |-> Arr(1), a3 |-> Arr(3), a20 |-> Arr(20), a32 |-> Arr(32),
-    iface |-> Iface, raw |-> Raw,
-    lu64 |-> ListOf(U(64)), lbytes |-> ListOf(Bytes), liface |-> ListOf(Iface), llu16 |-> ListOf(ListOf(U(16))),
-    au2 |-> LArr(2, U(16)), lraw |-> ListOf(Raw), pu64 |-> Ptr(U(64)),
-    S1 |-> Inner,
-    SnilA |-> Struct(<<U(64), NilPtr(Arr(20))>>),
-    SnilU |-> Struct(<<NilPtr(U(64)), U(8)>>),
-    SnilS |-> Struct(<<NilPtr(Inner)>>),
-    Stail |-> StructTail(<<U(64), ListOf(U(64))>>),
-    Sptr |-> Struct(<<Ptr(U(64)), Ptr(Big), Ptr(Bytes)>>),
-    Snest |-> Struct(<<Inner, ListOf(Inner), LArr(2, U(16))>>),
-    Sraw |-> Struct(<<Raw, U(64)>>),
-    Sbool |-> Struct(<<Bool, Bool, Bytes>>),
-    EthTx |-> Struct(<<U(64), Ptr(Big), U(64), NilPtr(Arr(20)), Ptr(Big), Bytes, Ptr(Big), Ptr(Big), Ptr(Big)>>) ]
-TypeNames == DOMAIN TypeOf
 =============================================================================
